@@ -39,6 +39,14 @@ func RandDense(r *Rng) (subj, clp Paths, R int64) {
 	return
 }
 
+// RandWideR is RandWide with the magnitude drawn from rs.
+func RandWideR(r *Rng, rs []int64) (subj, clp Paths, R int64) {
+	R = PickOf(r, rs...)
+	subj = RandPaths(r, 1+r.Intn(3), 9, R)
+	clp = RandPaths(r, r.Intn(3), 9, R)
+	return
+}
+
 // RandWide: generic position, large coordinates.
 func RandWide(r *Rng) (subj, clp Paths, R int64) {
 	R = PickOf(r, WideR...)
@@ -204,7 +212,12 @@ func area2(p Path) float64 {
 
 // Degenerate path sets: empty, points, collinear, flat, spikes, duplicates.
 func Degenerate(r *Rng) (subj, clp Paths) {
-	R := PickOf(r, int64(2), 5, 20, 1000, 1<<28)
+	return DegenerateR(r, []int64{2, 5, 20, 1000, 1 << 28})
+}
+
+// DegenerateR is Degenerate with the magnitude drawn from rs.
+func DegenerateR(r *Rng, rs []int64) (subj, clp Paths) {
+	R := PickOf(r, rs...)
 	one := func() Path {
 		switch r.Intn(12) {
 		case 0:
@@ -334,7 +347,12 @@ func NearDegenerate(r *Rng) (subj, clp Paths) {
 // BigN: 1..3 paths with hundreds to thousands of vertices: a noisy circle-ish
 // curve (smooth + noise), so the number of self-intersections stays moderate.
 func BigN(r *Rng, minV, maxV int) (subj, clp Paths) {
-	R := float64(PickOf(r, int64(20000), 1000000, 1<<27))
+	return BigNR(r, minV, maxV, []int64{20000, 1000000, 1 << 27})
+}
+
+// BigNR is BigN with the magnitude drawn from rs.
+func BigNR(r *Rng, minV, maxV int, rs []int64) (subj, clp Paths) {
+	R := float64(PickOf(r, rs...))
 	mk := func() Path {
 		n := minV + r.Intn(maxV-minV+1)
 		cx, cy := r.FloatRange(-R/4, R/4), r.FloatRange(-R/4, R/4)
